@@ -160,17 +160,17 @@ def tryFinally {α} (m : M α) (fin : M Unit) : M α := fun w =>
 
 /-! ### the in-memory backend, as far as these commands go (`cashews/backends/memory.py`) -/
 
+/-- the deadline a TTL-less `_set` inherits: that of a live entry already under the key -/
+def inheritDl {κ} [DecidableEq κ] (now : Nat) (s : List (κ × DEntry)) (k : κ) : Option Nat :=
+  match alLookup s k with
+  | some e => if liveAt e.dl now then e.dl else none
+  | none => none
+
 /-- `Memory._set`: `expire = time.time() + expire if expire else None`; without one, inherit the deadline of
 a live entry; assign and `move_to_end` -/
 def memSet {κ} [DecidableEq κ] (now : Nat) (s : List (κ × DEntry)) (k : κ) (v : Int) (ttl : Option Nat) :
     List (κ × DEntry) :=
-  let dl := match deadlineOf now ttl with
-    | some d => some d
-    | none =>
-      match alLookup s k with
-      | some e => if liveAt e.dl now then e.dl else none
-      | none => none
-  alPut s k ⟨v, dl⟩
+  alPut s k ⟨v, (deadlineOf now ttl).or (inheritDl now s k)⟩
 
 /-- `Memory._get`: absent → default; `move_to_end`; expired → delete, default -/
 def memGet {κ} [DecidableEq κ] (now : Nat) (s : List (κ × DEntry)) (k : κ) : List (κ × DEntry) × Option Int :=
